@@ -415,6 +415,109 @@ theorem C19_verdict_decides (f : File) (n : Name) :
     (declares f n = true ↔ Declares f n) ∧ (declaresService f n = true ↔ DeclaresService f n) :=
   ⟨declares_iff, declaresService_iff⟩
 
+/-! ### The builder as a program of calls
+
+The theorems above speak about a `Config`.  A `Config` is what a *program* of builder calls
+leaves behind; the next theorems say that nothing about the program matters except the
+registrations in call order, the chosen names in call order, and the LAST
+`include_reflection_service` call (on when there is none): calls of different kinds commute,
+earlier `include_reflection_service` calls are forgotten, the default is "include". -/
+
+/-- the registrations of a program, in call order -/
+def regsOfOps : List BuilderOp → List Reg
+  | [] => []
+  | .register r :: ops => r :: regsOfOps ops
+  | _ :: ops => regsOfOps ops
+
+/-- the `with_service_name` arguments of a program, in call order -/
+def namesOfOps : List BuilderOp → List Name
+  | [] => []
+  | .withServiceName n :: ops => n :: namesOfOps ops
+  | _ :: ops => namesOfOps ops
+
+/-- the argument of the last `include_reflection_service` call, `dflt` when there is none -/
+def lastInclude (dflt : Bool) : List BuilderOp → Bool
+  | [] => dflt
+  | .includeReflectionService b :: ops => lastInclude b ops
+  | _ :: ops => lastInclude dflt ops
+
+private theorem foldl_step_regs (ops : List BuilderOp) (b : Builder) :
+    (ops.foldl Builder.step b).regs = b.regs ++ regsOfOps ops := by
+  induction ops generalizing b with
+  | nil => simp [regsOfOps]
+  | cons op ops ih => cases op <;> simp [List.foldl, Builder.step, regsOfOps, ih]
+
+private theorem foldl_step_names (ops : List BuilderOp) (b : Builder) :
+    (ops.foldl Builder.step b).serviceNames = b.serviceNames ++ namesOfOps ops := by
+  induction ops generalizing b with
+  | nil => simp [namesOfOps]
+  | cons op ops ih => cases op <;> simp [List.foldl, Builder.step, namesOfOps, ih]
+
+private theorem foldl_step_useAll (ops : List BuilderOp) (b : Builder) :
+    (ops.foldl Builder.step b).useAllServiceNames = (b.useAllServiceNames && (namesOfOps ops).isEmpty) := by
+  induction ops generalizing b with
+  | nil => simp [namesOfOps]
+  | cons op ops ih => cases op <;> simp [List.foldl, Builder.step, namesOfOps, ih]
+
+private theorem foldl_step_include (ops : List BuilderOp) (b : Builder) :
+    (ops.foldl Builder.step b).includeReflectionService = lastInclude b.includeReflectionService ops := by
+  induction ops generalizing b with
+  | nil => simp [lastInclude]
+  | cons op ops ih => cases op <;> simp [List.foldl, Builder.step, lastInclude, ih]
+
+/-- What ANY program of builder calls configures: every registration in call order; the chosen
+names in call order iff `with_service_name` was called at all; the own descriptor iff the last
+`include_reflection_service` call said so — and iff nothing said otherwise (the default). -/
+theorem C19_builder_program (ops : List BuilderOp) (own : List File) :
+    (Builder.run ops).config own =
+      { regs := regsOfOps ops
+        chosen := if (namesOfOps ops).isEmpty then none else some (namesOfOps ops)
+        own := if lastInclude true ops then some own else none } := by
+  simp only [Builder.run, Builder.config, foldl_step_regs, foldl_step_names, foldl_step_useAll,
+    foldl_step_include, Builder.configure, List.nil_append, Bool.true_and]
+
+/-- Hence the order of calls of different kinds, repeated `include_reflection_service` calls and
+relying on the default are all invisible: two programs with the same registrations, the same
+names and the same final include setting build the same service (or fail with the same error),
+for v1 and for v1alpha alike (`own` is the version's descriptor). -/
+theorem C19_builder_order_invisible (ops ops' : List BuilderOp) (own : List File)
+    (hr : regsOfOps ops = regsOfOps ops') (hn : namesOfOps ops = namesOfOps ops')
+    (hi : lastInclude true ops = lastInclude true ops') :
+    build ((Builder.run ops).config own) = build ((Builder.run ops').config own) := by
+  rw [C19_builder_program, C19_builder_program, hr, hn, hi]
+
+/-- The default: a program that never calls `include_reflection_service` serves the own
+descriptor, exactly like one that ends with `include_reflection_service(true)`. -/
+theorem C19_builder_default_includes (ops : List BuilderOp) (own : List File)
+    (h : ∀ b, BuilderOp.includeReflectionService b ∉ ops) :
+    (Builder.run ops).config own = (Builder.run (ops ++ [.includeReflectionService true])).config own := by
+  have hl : ∀ (d : Bool) (l : List BuilderOp), (∀ b, BuilderOp.includeReflectionService b ∉ l) →
+      lastInclude d l = d := by
+    intro d l
+    induction l generalizing d with
+    | nil => intro _; rfl
+    | cons op l ih =>
+      intro hl
+      cases op with
+      | includeReflectionService b => exact absurd List.mem_cons_self (hl b)
+      | register r => exact ih d (fun b hb => hl b (List.mem_cons_of_mem _ hb))
+      | withServiceName n => exact ih d (fun b hb => hl b (List.mem_cons_of_mem _ hb))
+  have happ : ∀ (d : Bool) (l : List BuilderOp),
+      lastInclude d (l ++ [.includeReflectionService true]) = true := by
+    intro d l
+    induction l generalizing d with
+    | nil => rfl
+    | cons op l ih => cases op <;> simp [lastInclude, ih]
+  have hregs : ∀ l : List BuilderOp, regsOfOps (l ++ [.includeReflectionService true]) = regsOfOps l := by
+    intro l; induction l with
+    | nil => rfl
+    | cons op l ih => cases op <;> simp [regsOfOps, ih]
+  have hnames : ∀ l : List BuilderOp, namesOfOps (l ++ [.includeReflectionService true]) = namesOfOps l := by
+    intro l; induction l with
+    | nil => rfl
+    | cons op l ih => cases op <;> simp [namesOfOps, ih]
+  rw [C19_builder_program, C19_builder_program, hregs, hnames, happ, hl true ops h]
+
 /-! ### Non-vacuity -/
 
 section Examples
@@ -442,6 +545,19 @@ private def exFile'' : File :=
 
 private def exCfg : Config :=
   { regs := [.encoded (some [exFile]), .decoded [exFile', exFile']], chosen := none, own := none }
+
+-- a builder program: names before registrations, include toggled off and on again
+private def exOps : List BuilderOp :=
+  [.withServiceName (b ['p', 'k', '.', 'S', 'v']), .includeReflectionService false,
+   .register (.encoded (some [exFile])), .includeReflectionService true, .register (.decoded [exFile''])]
+private def exOps' : List BuilderOp :=
+  [.register (.encoded (some [exFile])), .register (.decoded [exFile'']),
+   .withServiceName (b ['p', 'k', '.', 'S', 'v'])]
+example : regsOfOps exOps = regsOfOps exOps' ∧ namesOfOps exOps = namesOfOps exOps'
+    ∧ lastInclude true exOps = lastInclude true exOps' := ⟨rfl, rfl, rfl⟩
+example : isOk (build ((Builder.run exOps).config [exFile'])) = true := by decide
+example : ∀ x, BuilderOp.includeReflectionService x ∉ exOps' := by
+  intro x h; simp [exOps'] at h
 
 -- the hypotheses of the theorems are satisfiable by a non-trivial configuration
 example : exCfg.decodable = true ∧ (∀ f ∈ exCfg.files, File.wellNamed f = true) := by decide
